@@ -41,14 +41,55 @@ def raises_not_implemented(stmts):
     return False
 
 
-def is_guard(ifnode, fam):
-    """`if <fam present>: raise NotImplementedError` or `if <fam absent>: ... else: raise NotImplementedError`"""
-    ft = family_test(ifnode.test)
-    if ft is None or ft[0] != fam:
+def _present_when_true(t, fam, pol=True):
+    """the test being true (pol) / false (not pol) is implied by `fam` features being present:
+    `A or B` is true when A is; `not (absentA and absentB)` likewise (De Morgan)"""
+    while isinstance(t, ast.UnaryOp) and isinstance(t.op, ast.Not):
+        t, pol = t.operand, not pol
+    if isinstance(t, ast.BoolOp):
+        if isinstance(t.op, ast.Or) and pol:
+            return any(_present_when_true(v, fam, True) for v in t.values)
+        if isinstance(t.op, ast.And) and not pol:
+            return any(_present_when_true(v, fam, False) for v in t.values)
         return False
-    if ft[1]:
-        return raises_not_implemented(ifnode.body)
-    return bool(ifnode.orelse) and raises_not_implemented(ifnode.orelse)
+    ft = family_test(t)
+    return ft is not None and ft[0] == fam and ft[1] == pol
+
+
+def is_guard(ifnode, fam):
+    """`if <fam present [or ...]>: raise NotImplementedError`, or `if <fam absent [and ...]>: ... else: raise
+    NotImplementedError`"""
+    if _present_when_true(ifnode.test, fam, True) and raises_not_implemented(ifnode.body):
+        return True
+    if _present_when_true(ifnode.test, fam, False) and ifnode.orelse and raises_not_implemented(ifnode.orelse):
+        return True
+    return False
+
+
+def _guard_helper(node, fam, top, depth=0):
+    """the statement calls a same-module function / self-method that executes a guard for `fam` on every normal
+    path (one level of helper extraction: `_check_supported(ni)`)"""
+    if node.kind != "stmt" or not isinstance(node.ast, (ast.Expr, ast.Assign)) or depth > 1:
+        return False
+    mod = top
+    while pf.parent(mod) is not None:
+        mod = pf.parent(mod)
+    for c in ast.walk(node.ast):
+        if not isinstance(c, ast.Call):
+            continue
+        name = c.func.id if isinstance(c.func, ast.Name) else (
+            c.func.attr if isinstance(c.func, ast.Attribute) and isinstance(c.func.value, ast.Name)
+            and c.func.value.id == "self" else None)
+        if name is None:
+            continue
+        for h in ast.walk(mod):
+            if isinstance(h, ast.FunctionDef) and h.name == name and h is not top:
+                g = cfgm.CFG(h)
+                ok, _w = g.must_pass(lambda n: (n.kind == "test" and isinstance(n.ast, ast.If) and is_guard(n.ast, fam))
+                                     or _guard_helper(n, fam, h, depth + 1))
+                if ok:
+                    return True
+    return False
 
 
 def local_generators(fn):
@@ -75,7 +116,7 @@ def guard_passes(fn, target, fam):
         raise AnalysisError("cannot place `%s` in the CFG of %s" % (pf.src(target)[:40], scope.name))
 
     def pred(n):
-        return n.kind == "test" and isinstance(n.ast, ast.If) and is_guard(n.ast, fam)
+        return (n.kind == "test" and isinstance(n.ast, ast.If) and is_guard(n.ast, fam)) or _guard_helper(n, fam, fn)
 
     ok, wit = g.must_pass(pred, dst=tn.id)
     if ok:
@@ -180,7 +221,8 @@ class Slice:
 
 
 def unpack_of_eval_xc(fn):
-    """all `exc, (vxc, vxc_nldf, vxc_sdmx) = <ni>.eval_xc_cider(...)[:2]` statements of fn (nested included)
+    """all `exc, (vxc, vxc_nldf, vxc_sdmx) = <ni>.eval_xc_cider(...)[:2]` statements of fn (nested included),
+    also when the triple is unpacked by a following statement (`exc, v = ...; vxc, vxc_nldf, vxc_sdmx = v`)
     -> list of (assign stmt, call, exc target, [three Name targets])"""
     out = []
     for n in ast.walk(fn):
@@ -190,10 +232,21 @@ def unpack_of_eval_xc(fn):
             if not calls:
                 continue
             t = n.targets[0]
-            if not (isinstance(t, ast.Tuple) and len(t.elts) == 2 and isinstance(t.elts[1], ast.Tuple)
-                    and len(t.elts[1].elts) == 3 and all(isinstance(x, ast.Name) for x in t.elts[1].elts)):
+            if not (isinstance(t, ast.Tuple) and len(t.elts) >= 2):
                 raise AnalysisError("%s: unrecognised unpacking of eval_xc_cider: %s" % (fn.name, pf.src(t)))
-            out.append((n, calls[0], t.elts[0], list(t.elts[1].elts)))
+            trip = t.elts[1]
+            if isinstance(trip, ast.Name):
+                # look for the statement that takes the triple apart
+                scope = pf.enclosing_func(n) or fn
+                nxt = [m for m in pf.walk_no_nested(scope) if isinstance(m, ast.Assign) and isinstance(m.value, ast.Name)
+                       and m.value.id == trip.id and isinstance(m.targets[0], ast.Tuple)]
+                if len(nxt) != 1:
+                    raise AnalysisError("%s: the potentials returned by eval_xc_cider are not unpacked: %s" % (
+                        fn.name, pf.src(t)))
+                trip = nxt[0].targets[0]
+            if not (isinstance(trip, ast.Tuple) and len(trip.elts) == 3 and all(isinstance(x, ast.Name) for x in trip.elts)):
+                raise AnalysisError("%s: unrecognised unpacking of eval_xc_cider: %s" % (fn.name, pf.src(t)))
+            out.append((n, calls[0], t.elts[0], list(trip.elts)))
     for c in calls_named(fn, "eval_xc_cider"):
         if not any(c is x[1] for x in out):
             raise AnalysisError("%s: an eval_xc_cider call whose result is not unpacked as "
@@ -227,13 +280,34 @@ def weight_names(fn):
 # ----------------------------------------------------------------------------
 # the one-half convention in the gradient functions
 # ----------------------------------------------------------------------------
+def _is_half(v, div=False):
+    if isinstance(v, ast.Constant):
+        return v.value == (2 if div else 0.5)
+    if not div and isinstance(v, ast.BinOp) and isinstance(v.op, ast.Div) and isinstance(v.left, ast.Constant) \
+            and isinstance(v.right, ast.Constant):
+        return v.left.value == 1 and v.right.value == 2
+    return False
+
+
 def _half_stmt(st, var, row, spin=False):
-    """`var[row] *= 0.5` (spin=False) or `var[:, row] *= 0.5` (spin=True: var carries a leading spin axis)"""
-    if not (isinstance(st, ast.AugAssign) and isinstance(st.op, ast.Mult) and isinstance(st.value, ast.Constant)
-            and st.value.value == 0.5 and isinstance(st.target, ast.Subscript)
-            and isinstance(st.target.value, ast.Name) and st.target.value.id == var):
+    """`var[row] *= 0.5` (spin=False) or `var[:, row] *= 0.5` (spin=True: var carries a leading spin axis), and
+    the equivalent spellings `/= 2`, `*= 1 / 2`, `x = x * 0.5`, `x = 0.5 * x`, `x = x / 2`"""
+    tgt = None
+    if isinstance(st, ast.AugAssign) and isinstance(st.target, ast.Subscript):
+        if (isinstance(st.op, ast.Mult) and _is_half(st.value)) or (isinstance(st.op, ast.Div) and _is_half(st.value, True)):
+            tgt = st.target
+    elif isinstance(st, ast.Assign) and len(st.targets) == 1 and isinstance(st.targets[0], ast.Subscript) \
+            and isinstance(st.value, ast.BinOp):
+        t, v = st.targets[0], st.value
+        ts = pf.src(t)
+        if isinstance(v.op, ast.Mult) and ((pf.src(v.left) == ts and _is_half(v.right)) or (
+                pf.src(v.right) == ts and _is_half(v.left))):
+            tgt = t
+        elif isinstance(v.op, ast.Div) and pf.src(v.left) == ts and _is_half(v.right, True):
+            tgt = t
+    if tgt is None or not (isinstance(tgt.value, ast.Name) and tgt.value.id == var):
         return False
-    sl = st.target.slice
+    sl = tgt.slice
     if isinstance(sl, ast.Constant):
         return (not spin) and sl.value == row
     if spin and isinstance(sl, ast.Tuple) and len(sl.elts) == 2 and isinstance(sl.elts[0], ast.Slice) \
@@ -320,7 +394,7 @@ def _anc(n):
 def half_rule(chk, rule, tree, rels_names):
     """shared with C01: the density row (and tau row) of the weighted potential is halved exactly once"""
     for rel, name in rels_names:
-        fn = pf.Module(tree, rel).func(name)
+        rel, fn = locate(tree, rel, name)
         sites = 0
         for sink, pos, row in (("_gga_grad_sum_", 3, 0), ("_tau_grad_dot_", 3, 4)):
             for c in half_sites(fn, sink, pos):
@@ -358,3 +432,49 @@ def half_rule(chk, rule, tree, rels_names):
                                   "the symmetrised one)" % ("density" if row == 0 else "tau", var, n), instance=inst)
         if sites == 0:
             raise AnalysisError("%s:%s: no _gga_grad_sum_ call found" % (rel, name))
+
+
+# ----------------------------------------------------------------------------
+# locating anchors: a function moved to another module and re-imported, or a method moved to a base class /
+# mixin, is still the same anchor
+# ----------------------------------------------------------------------------
+def _repo_rel(tree, modname):
+    for cand in (modname.replace(".", "/") + ".py", modname.replace(".", "/") + "/__init__.py"):
+        if tree.exists(cand):
+            return cand
+    return None
+
+
+def locate(tree, rel, qual, _depth=0):
+    """-> (rel where it is defined, FunctionDef).  `qual` is 'func' or 'Class.method'.  Follows `from m import
+    name` re-exports for functions and classes, and the MRO (repo classes) for methods."""
+    mod = pf.Module(tree, rel)
+    if "." not in qual:
+        if qual in mod.functions:
+            return rel, mod.functions[qual]
+        if qual in mod.imports and _depth < 3:
+            m, n = mod.imports[qual]
+            r2 = _repo_rel(tree, m) if n else None
+            if r2:
+                return locate(tree, r2, n, _depth + 1)
+        # bound as a class attribute elsewhere in the module?  no: report it
+        raise AnalysisError("anchor function %s vanished from %s" % (qual, rel))
+    cname, mname = qual.split(".", 1)
+    if cname not in mod.classes:
+        if cname in mod.imports and _depth < 3:
+            m, n = mod.imports[cname]
+            r2 = _repo_rel(tree, m) if n else None
+            if r2:
+                return locate(tree, r2, "%s.%s" % (n, mname), _depth + 1)
+        raise AnalysisError("anchor class %s vanished from %s" % (cname, rel))
+    rels = [rel]
+    for m, n in mod.imports.values():
+        r2 = _repo_rel(tree, m) if m.startswith("ciderpress") else None
+        if r2 and r2 not in rels:
+            rels.append(r2)
+    prog = pf.Program(tree, rels)
+    pm = prog.module(rel)
+    r = prog.find_method(pm, pm.classes[cname], mname)
+    if r is None:
+        raise AnalysisError("anchor method %s vanished from %s (also not found through the MRO)" % (qual, rel))
+    return r[0].rel, r[2]
